@@ -473,8 +473,12 @@ var (
 )
 
 // Given a time, determines the number of days in the month that time occurs in.
+// The length of a month is a property of the calendar, not of the location:
+// evaluating it in t's location goes wrong where the local calendar skipped the
+// month's last day (Pacific/Kiritimati and Pacific/Kanton had no 1994-12-31:
+// the normalised date lands on 1995-01-01 and the month would have 1 day).
 func daysInMonth(t time.Time) int {
-	return time.Date(t.Year(), t.Month()+1, 0, 12, 0, 0, 0, t.Location()).Day()
+	return time.Date(t.Year(), t.Month()+1, 0, 12, 0, 0, 0, time.UTC).Day()
 }
 
 func clamp(n, min, max int) int {
